@@ -442,6 +442,18 @@ package caldav
 //@   ensures F2: err != nil ==> pfErr(err)
 //@   ensures F4: err == nil ==> formOK(propfind)
 //@   ensures F3: mutations == old(mutations)
+//@   -- C10: a calendar's description, display name and size limit are handed to the serialiser as the backend gave them
+//@   -- (prop form: at the position of the requested element, under 200; an unset name / limit is answered 404)
+//@   ensures F5a: err == nil && propFormOnly(propfind) && old(allNamed(propfind)) ==> (forall j int :: 0 <= j && j < old(len(propfind.Prop.Raw)) && old(rawName(propfind.Prop.Raw[j])) == calendarDescriptionName
+//@   |   ==> loggedCode(old(epCalls) + j) == 200 && dynPtr(loggedVal(old(epCalls) + j), "*calendarDescription") != nil && dynPtr(loggedVal(old(epCalls) + j), "*calendarDescription").Description == cal.Description)
+//@   ensures F5b: err == nil && propFormOnly(propfind) && old(allNamed(propfind)) && cal.Name != "" ==> (forall j int :: 0 <= j && j < old(len(propfind.Prop.Raw)) && old(rawName(propfind.Prop.Raw[j])) == internal.DisplayNameName
+//@   |   ==> loggedCode(old(epCalls) + j) == 200 && dynPtr(loggedVal(old(epCalls) + j), "*internal.DisplayName") != nil && dynPtr(loggedVal(old(epCalls) + j), "*internal.DisplayName").Name == cal.Name)
+//@   ensures F5c: err == nil && propFormOnly(propfind) && old(allNamed(propfind)) && cal.Name == "" ==> (forall j int :: 0 <= j && j < len(propfind.Prop.Raw) && rawName(propfind.Prop.Raw[j]) == internal.DisplayNameName
+//@   |   ==> loggedCode(old(epCalls) + j) == 404)
+//@   ensures F5d: err == nil && propFormOnly(propfind) && old(allNamed(propfind)) && cal.MaxResourceSize > 0 ==> (forall j int :: 0 <= j && j < old(len(propfind.Prop.Raw)) && old(rawName(propfind.Prop.Raw[j])) == maxResourceSizeName
+//@   |   ==> loggedCode(old(epCalls) + j) == 200 && dynPtr(loggedVal(old(epCalls) + j), "*maxResourceSize") != nil && dynPtr(loggedVal(old(epCalls) + j), "*maxResourceSize").Size == cal.MaxResourceSize)
+//@   ensures F5e: err == nil && propFormOnly(propfind) && old(allNamed(propfind)) && cal.MaxResourceSize <= 0 ==> (forall j int :: 0 <= j && j < len(propfind.Prop.Raw) && rawName(propfind.Prop.Raw[j]) == maxResourceSizeName
+//@   |   ==> loggedCode(old(epCalls) + j) == 404)
 //@ func caldav.(*backend).propFindCalendarObject(b, ctx, propfind, co) (resp, err)
 //@   requires R1: b != nil && b.Backend != nil && propfind != nil && co != nil
 //@   allocates
@@ -449,6 +461,22 @@ package caldav
 //@   ensures F2: err != nil ==> pfErr(err)
 //@   ensures F4: err == nil ==> formOK(propfind)
 //@   ensures F3: mutations == old(mutations)
+//@   -- C10 / C05: typed properties are handed to the serialiser with the backend's values (prop form: at the position of the
+//@   -- requested element, under 200; an unset value is answered 404)
+//@   ensures V1a: err == nil && propFormOnly(propfind) && old(allNamed(propfind)) && co.ContentLength > 0 ==> (forall j int :: 0 <= j && j < old(len(propfind.Prop.Raw)) && old(rawName(propfind.Prop.Raw[j])) == internal.GetContentLengthName
+//@   |   ==> loggedCode(old(epCalls) + j) == 200 && dynPtr(loggedVal(old(epCalls) + j), "*internal.GetContentLength") != nil && (let v : dynPtr(loggedVal(old(epCalls) + j), "*internal.GetContentLength") in v.Length == co.ContentLength))
+//@   ensures V1b: err == nil && propFormOnly(propfind) && old(allNamed(propfind)) && co.ContentLength <= 0 ==> (forall j int :: 0 <= j && j < len(propfind.Prop.Raw) && rawName(propfind.Prop.Raw[j]) == internal.GetContentLengthName
+//@   |   ==> loggedCode(old(epCalls) + j) == 404)
+//@   ensures V2a: err == nil && propFormOnly(propfind) && old(allNamed(propfind)) && co.ETag != "" ==> (forall j int :: 0 <= j && j < old(len(propfind.Prop.Raw)) && old(rawName(propfind.Prop.Raw[j])) == internal.GetETagName
+//@   |   ==> loggedCode(old(epCalls) + j) == 200 && dynPtr(loggedVal(old(epCalls) + j), "*internal.GetETag") != nil && (let v : dynPtr(loggedVal(old(epCalls) + j), "*internal.GetETag") in string(v.ETag) == co.ETag))
+//@   ensures V2b: err == nil && propFormOnly(propfind) && old(allNamed(propfind)) && co.ETag == "" ==> (forall j int :: 0 <= j && j < len(propfind.Prop.Raw) && rawName(propfind.Prop.Raw[j]) == internal.GetETagName
+//@   |   ==> loggedCode(old(epCalls) + j) == 404)
+//@   ensures V3a: err == nil && propFormOnly(propfind) && old(allNamed(propfind)) && !isZeroTime(co.ModTime) ==> (forall j int :: 0 <= j && j < old(len(propfind.Prop.Raw)) && old(rawName(propfind.Prop.Raw[j])) == internal.GetLastModifiedName
+//@   |   ==> loggedCode(old(epCalls) + j) == 200 && dynPtr(loggedVal(old(epCalls) + j), "*internal.GetLastModified") != nil && (let v : dynPtr(loggedVal(old(epCalls) + j), "*internal.GetLastModified") in ns(v.LastModified) == ns(co.ModTime)))
+//@   ensures V3b: err == nil && propFormOnly(propfind) && old(allNamed(propfind)) && isZeroTime(co.ModTime) ==> (forall j int :: 0 <= j && j < len(propfind.Prop.Raw) && rawName(propfind.Prop.Raw[j]) == internal.GetLastModifiedName
+//@   |   ==> loggedCode(old(epCalls) + j) == 404)
+//@   ensures V4a: err == nil && propFormOnly(propfind) && old(allNamed(propfind)) ==> (forall j int :: 0 <= j && j < old(len(propfind.Prop.Raw)) && old(rawName(propfind.Prop.Raw[j])) == internal.GetContentTypeName
+//@   |   ==> loggedCode(old(epCalls) + j) == 200 && dynPtr(loggedVal(old(epCalls) + j), "*internal.GetContentType") != nil && (let v : dynPtr(loggedVal(old(epCalls) + j), "*internal.GetContentType") in v.Type == "text/calendar"))
 //@ func caldav.(*backend).propFindAllCalendarObjects(b, ctx, propfind, cal) (resps, err)
 //@   requires R1: b != nil && b.Backend != nil && propfind != nil && cal != nil
 //@   allocates
@@ -477,6 +505,9 @@ package caldav
 //@ func caldav.(*backend).PropFind(b, r, propfind, depth) (ms, err)
 //@   requires R1: servedCB(b) && validReq(r) && propfind != nil
 //@   allocates
+//@   ghostset pfReached : true
+//@   ghostset pfAllProp : propfind.AllProp != nil
+//@   ensures P9: pfReached && pfAllProp == old(propfind.AllProp != nil)
 //@   ensures P0: err == nil ==> ms != nil
 //@   ensures P1: err != nil ==> ms == nil && pfErr(err)
 //@   ensures P2: mutations == old(mutations)
@@ -574,11 +605,17 @@ package caldav
 //@   ensures PF4: routedC(r) && r.Method == "PROPFIND" && hdr(r, "Depth") != "" && hdr(r, "Depth") != "0" && hdr(r, "Depth") != "1" && hdr(r, "Depth") != "infinity" ==> wstatus(w) == 400 && mutations == old(mutations)
 //@   ensures PF5: routedC(r) && r.Method == "PROPFIND" && wstatus(w) == 207 && servedErr == nil && xmlReq(r) && !formOKv(decoded(r, "internal.PropFind")) ==> servedMS != nil && len(servedMS.Responses) == 0
 //@   ensures PF6: r.Method == "PROPFIND" && wstatus(w) == 207 && servedErr == nil ==> servedMS != nil
+//@   -- C11: a PROPFIND without a body (and without an XML content type) means allprop: it reaches the backend's PropFind as an allprop request
+//@   ensures PF7: routedC(r) && r.Method == "PROPFIND" && old(!pfReached && !xmlReq(r) && smt("bool", "(emptyBody $0)", r.Body) && (hdr(r, "Depth") == "" || hdr(r, "Depth") == "0" || hdr(r, "Depth") == "1" || hdr(r, "Depth") == "infinity"))
+//@   |   ==> pfReached && pfAllProp
 //@   -- C13: a 5xx answer stems from the backend or the environment (or is the 501 of an unimplemented method), and a
 //@   -- request that changed something was either carried out or failed inside the backend
 //@   ensures S5: wstatus(w) >= 500 ==> (servedErr != nil && (beErr(servedErr) || fromEnv(servedErr) || httpCode(servedErr) == 501)) || (!routedC(r) && calPrincipalErr(h.Backend, reqContext(r)) != nil)
 //@   ensures S4: mutations != old(mutations) ==> (r.Method == "PUT" || r.Method == "DELETE" || r.Method == "MKCOL") && (wstatus(w) < 300 || (servedErr != nil && beErr(servedErr)))
 //@   ensures S3: !routedC(r) ==> mutations == old(mutations)
+//@   -- C12: the well-known URI is answered with a method-preserving redirect (307 / 308: the discovery PROPFIND must stay a
+//@   -- PROPFIND) to the backend's current-user-principal path, unchanged
+//@   ensures WK1: !routedC(r) && calPrincipalErr(h.Backend, reqContext(r)) == nil ==> (wstatus(w) == 308 || wstatus(w) == 307) && redirURL == calPrincipal(h.Backend, reqContext(r))
 //@   ensures S2: r.Method != "GET" && r.Method != "HEAD" ==> wstatus(w) != 0
 
 //@ -- ---------------------------------------------------------------------------------------
@@ -586,22 +623,31 @@ package caldav
 //@ -- (specs: funcvalue:internal.PropFindFunc). Their preconditions speak about the captured variables, which hold
 //@ -- where the literal is created (precondition R1 of the creating function).
 //@ func caldav.(*backend).propFindCalendar$1(raw) (val, err)
+//@   ensures VN: err == nil ==> val != nil
 //@   requires C1: *b != nil && (*b).Backend != nil
 //@   allocates
 //@   ensures V1: mutations == old(mutations) && epCalls == old(epCalls) && epCode == old(epCode) && epVal == old(epVal)
 //@   ensures V2: err != nil ==> beErr(err) || fromEnv(err)
 //@ func caldav.(*backend).propFindCalendar$2(raw) (val, err)
+//@   ensures VN: err == nil ==> val != nil
 //@   requires C1: *cal != nil
 //@   allocates
 //@   ensures V1: mutations == old(mutations) && epCalls == old(epCalls) && epCode == old(epCode) && epVal == old(epVal)
 //@   ensures V2: err == nil
+//@   -- C10: the supported component set is the backend's list, in order (also when it is empty); VEVENT alone stands for a nil list
+//@   ensures V3: (*cal).SupportedComponentSet != nil ==> (let v : dynPtr(val, "*supportedCalendarComponentSet") in v != nil && len(v.Comp) == len((*cal).SupportedComponentSet)
+//@   |   && (forall j int :: 0 <= j && j < len(v.Comp) ==> v.Comp[j].Name == old((*cal).SupportedComponentSet[j])))
+//@   ensures V4: (*cal).SupportedComponentSet == nil ==> (let v : dynPtr(val, "*supportedCalendarComponentSet") in v != nil && len(v.Comp) == 1 && v.Comp[0].Name == "VEVENT")
 //@   loop 1 invariant I1: fresh(components) && mutations == old(mutations) && epCalls == old(epCalls) && epCode == old(epCode) && epVal == old(epVal)
+//@   loop 1 invariant I2: len(components) == #i && (forall j int :: 0 <= j && j < #i ==> components[j].Name == old((*cal).SupportedComponentSet[j]))
 //@ func caldav.(*backend).propFindCalendarObject$1(raw) (val, err)
+//@   ensures VN: err == nil ==> val != nil
 //@   requires C1: *b != nil && (*b).Backend != nil
 //@   allocates
 //@   ensures V1: mutations == old(mutations) && epCalls == old(epCalls) && epCode == old(epCode) && epVal == old(epVal)
 //@   ensures V2: err != nil ==> beErr(err) || fromEnv(err)
 //@ func caldav.(*backend).propFindCalendarObject$2(raw) (val, err)
+//@   ensures VN: err == nil ==> val != nil
 //@   requires C1: *co != nil
 //@   allocates
 //@   ensures V1: mutations == old(mutations) && epCalls == old(epCalls) && epCode == old(epCode) && epVal == old(epVal)
